@@ -1243,4 +1243,135 @@ theorem lro_paged_not_stream (m : MethodShape) (h : m.lro = true ∨ m.paged = t
 
 example : (⟨false, true, false, false⟩ : MethodShape).lro = true ∨ (⟨false, true, false, false⟩ : MethodShape).paged = true := by decide
 
+/-! ### snippet index -/
+
+section Aux
+
+theorem upd_any_service (svc rpc : List Char) (f : IxEntry → IxEntry) (hf : ∀ e, (f e).service = e.service) (q : List Char) :
+    ∀ ix : Index, (Index.upd svc rpc f ix).any (fun e => decide (e.service = q)) = ix.any (fun e => decide (e.service = q)) := by
+  intro ix
+  induction ix with
+  | nil => rfl
+  | cons e es ih =>
+    simp only [Index.upd]
+    split
+    · simp [List.any_cons, hf]
+    · simp only [List.any_cons, ih]
+
+theorem upd_find_same (svc rpc : List Char) (f : IxEntry → IxEntry)
+    (hf : ∀ e, (f e).service = e.service ∧ (f e).rpc = e.rpc) :
+    ∀ ix : Index, (Index.upd svc rpc f ix).find svc rpc = (ix.find svc rpc).map f := by
+  intro ix
+  induction ix with
+  | nil => rfl
+  | cons e es ih =>
+    simp only [Index.upd]
+    by_cases h : e.service = svc ∧ e.rpc = rpc
+    · simp [h, Index.find, List.find?_cons, hf]
+    · simp only [h, if_false]
+      simp only [Index.find, List.find?_cons, h, decide_false] at ih ⊢
+      exact ih
+
+theorem upd_find_other (svc rpc : List Char) (f : IxEntry → IxEntry)
+    (hf : ∀ e, (f e).service = e.service ∧ (f e).rpc = e.rpc) (svc2 rpc2 : List Char) (hne : ¬ (svc2 = svc ∧ rpc2 = rpc)) :
+    ∀ ix : Index, (Index.upd svc rpc f ix).find svc2 rpc2 = ix.find svc2 rpc2 := by
+  intro ix
+  induction ix with
+  | nil => rfl
+  | cons e es ih =>
+    simp only [Index.upd]
+    by_cases h : e.service = svc ∧ e.rpc = rpc
+    · have h2 : ¬ (e.service = svc2 ∧ e.rpc = rpc2) := by
+        intro h3; exact hne ⟨by rw [← h3.1, h.1], by rw [← h3.2, h.2]⟩
+      obtain ⟨h1, h1r⟩ := h
+      subst h1 h1r
+      have hk := hf e
+      by_cases a : e.service = svc2 <;> by_cases b : e.rpc = rpc2 <;>
+        simp_all [Index.find, List.find?_cons]
+    · simp only [h, if_false]
+      simp only [Index.find, List.find?_cons] at ih ⊢
+      rw [ih]
+
+theorem put_keys (s : Snip) (e : IxEntry) : (e.put s).service = e.service ∧ (e.put s).rpc = e.rpc := by
+  unfold IxEntry.put; split <;> simp
+
+end Aux
+
+/-- `get_add_own_flavour`: after `add_snippet(s)`, `get_snippet(service, rpc, sync = not s.async)` returns `s` — for
+    EVERY region tag (`…_async_internal` of a selectively-internal RPC included): the slot is chosen by the
+    metadata's `async` flag alone. -/
+theorem get_add_own_flavour (ix ix2 : Index) (s : Snip) (h : ix.addSnippet s = .ok ix2) :
+    ix2.getSnippet s.service s.rpc (!s.isAsync) = .ok (some s) := by
+  unfold Index.addSnippet at h
+  cases hl : ix.locate s.service s.rpc with
+  | error x => simp [hl] at h
+  | ok e0 =>
+    simp only [hl, Except.ok.injEq] at h
+    subst h
+    unfold Index.locate at hl
+    split at hl
+    · rename_i hany
+      cases hfind : ix.find s.service s.rpc with
+      | none => simp [hfind] at hl
+      | some e =>
+        unfold Index.getSnippet Index.locate
+        rw [upd_any_service _ _ _ (fun e => (put_keys s e).1), hany, upd_find_same _ _ _ (put_keys s), hfind]
+        cases hs : s.isAsync <;> simp [IxEntry.put, hs]
+    · cases hl
+
+/-- the other flavour's slot of the same RPC is left alone (the asyncio snippet never replaces the sync one) -/
+theorem add_keeps_other_flavour (ix ix2 : Index) (s : Snip) (h : ix.addSnippet s = .ok ix2) :
+    ix2.getSnippet s.service s.rpc s.isAsync = ix.getSnippet s.service s.rpc s.isAsync := by
+  unfold Index.addSnippet at h
+  cases hl : ix.locate s.service s.rpc with
+  | error x => simp [hl] at h
+  | ok e0 =>
+    simp only [hl, Except.ok.injEq] at h
+    subst h
+    have hl2 := hl
+    unfold Index.locate at hl
+    split at hl
+    · rename_i hany
+      cases hfind : ix.find s.service s.rpc with
+      | none => simp [hfind] at hl
+      | some e =>
+        unfold Index.getSnippet
+        rw [hl2]
+        unfold Index.locate
+        rw [upd_any_service _ _ _ (fun e => (put_keys s e).1), hany, upd_find_same _ _ _ (put_keys s), hfind]
+        simp only [hfind, Except.ok.injEq] at hl
+        subst hl
+        cases hs : s.isAsync <;> simp [IxEntry.put, hs]
+    · cases hl
+
+/-- and so are the slots of every other RPC -/
+theorem add_keeps_other_methods (ix ix2 : Index) (s : Snip) (h : ix.addSnippet s = .ok ix2)
+    (svc rpc : List Char) (hne : ¬ (svc = s.service ∧ rpc = s.rpc)) (b : Bool) :
+    ix2.getSnippet svc rpc b = ix.getSnippet svc rpc b := by
+  unfold Index.addSnippet at h
+  cases hl : ix.locate s.service s.rpc with
+  | error x => simp [hl] at h
+  | ok e0 =>
+    simp only [hl, Except.ok.injEq] at h
+    subst h
+    unfold Index.getSnippet Index.locate
+    rw [upd_any_service _ _ _ (fun e => (put_keys s e).1), upd_find_other _ _ _ (put_keys s) _ _ hne]
+
+/-- the asyncio snippet of an internal RPC (tag `…_async_internal`) is what the asyncio client's docstring gets,
+    the sync client's docstring gets the sync one — in either order of insertion -/
+def ixA : Snip := ⟨"Things".toList, "RenameThing".toList, true, "thing_v1_generated_Things_RenameThing_async_internal".toList⟩
+def ixB : Snip := ⟨"Things".toList, "RenameThing".toList, false, "thing_v1_generated_Things_RenameThing_sync_internal".toList⟩
+def ixInit : Index := Index.init [("Things".toList, "GetThing".toList), ("Things".toList, "RenameThing".toList)]
+
+theorem internal_async_snippet_filed_async :
+    ((ixInit.addAll [ixA, ixB]).toOption.map fun ix2 =>
+      ((ix2.getSnippet ixA.service ixA.rpc false).toOption, (ix2.getSnippet ixA.service ixA.rpc true).toOption))
+      = some (some (some ixA), some (some ixB)) ∧
+    ((ixInit.addAll [ixB, ixA]).toOption.map fun ix2 =>
+      ((ix2.getSnippet ixA.service ixA.rpc false).toOption, (ix2.getSnippet ixA.service ixA.rpc true).toOption))
+      = some (some (some ixA), some (some ixB)) := by
+  decide +kernel
+
+example : ∃ ix2, ixInit.addSnippet ixA = .ok ix2 := ⟨_, rfl⟩
+
 end GapicModel.Props.C14
